@@ -41,6 +41,10 @@ func cmdLedger(args []string) {
 	profile := fs.String("profile", "mixed", "action mix")
 	out := fs.String("out", "trace.ndjson", "output file")
 	triple := fs.Bool("triple", false, "run replicas (C13)")
+	sweep := fs.Bool("gassweep", false, "sweep GasProvided around the boundary points (C06/C16)")
+	alloc := fs.Bool("alloc", false, "measure allocation of every call (C11)")
+	adv := fs.Int("adversarial", 0, "percentage of steps that are adversarial calls (C11)")
+	faults := fs.Bool("faults", false, "enumerate dependency faults of every successful step (C17)")
 	fs.Parse(args)
 	t, err := world.NewTracer(*out)
 	if err != nil {
@@ -52,9 +56,16 @@ func cmdLedger(args []string) {
 			die(err)
 		}
 		d.Triple = *triple
+		d.GasSweep = *sweep
+		d.FaultMode = *faults
+		d.Alloc = *alloc
 		d.Setup()
 		for s := 0; s < *steps; s++ {
-			d.Step()
+			if *adv > 0 && d.R.Intn(100) < *adv {
+				d.ActAdversarial()
+			} else {
+				d.Step()
+			}
 		}
 		d.Drain()
 		t.Traces++
